@@ -1482,8 +1482,7 @@ class Normalizer:
             if not (isinstance(st, ast.Assign) and len(st.targets) == 1 and isinstance(st.targets[0], ast.Name)):
                 return None
             T = st.targets[0].id
-            if any(isinstance(n, ast.Name) and n.id == T for s in body for n in ast.walk(s)):
-                return None
+            # (the body may read T — the caller's value, e.g. `data = helper(data)` — since T is only assigned where a path ends)
             out = _eliminate_returns(body, lambda v, ref: _loc(ast.Assign(targets=[ast.Name(id=T, ctx=ast.Store())], value=v), ref))
             if out is None:
                 return None
